@@ -66,7 +66,9 @@ def pipelines(phase: str) -> Iterable[tuple]:
     om = [e.id for e in use]
     co = [e.id for e in use if "core" in e.flags]
     cos = set(co)
-    if phase == "d1":
+    if phase == "d0":
+        yield ()  # the bare source: the subscriber's own subscribe() is the only library code in play
+    elif phase == "d1":
         for a in om:
             yield (a,)
     elif phase == "d2core":
@@ -94,10 +96,10 @@ def pipelines(phase: str) -> Iterable[tuple]:
 
 
 def policies_for(stages: tuple) -> tuple:
-    return POLICIES if "inner" in cat.by_id()[stages[-1]].flags else ("sub",)
+    return POLICIES if stages and "inner" in cat.by_id()[stages[-1]].flags else ("sub",)
 
 
-def base_cases(phase: str, kinds=("cold", "hot"), tl_names=None, tl_names_by_depth=None):
+def base_cases(phase: str, kinds=("cold", "hot"), tl_names=None, tl_names_by_depth=None, include_sync=False):
     """Yield (stages, kind, tlname, policy).  tl_names restricts the conforming timelines;
     tl_names_by_depth {depth: names} overrides it per pipeline depth."""
     names = list(cat.TLS().keys())
@@ -109,6 +111,8 @@ def base_cases(phase: str, kinds=("cold", "hot"), tl_names=None, tl_names_by_dep
         for kind in kinds:
             for n in names:
                 if n.startswith("rogue:") != (kind == "rogue"):
+                    continue
+                if n.startswith("coldsync:") and not (include_sync and kind == "cold"):
                     continue
                 if allowed is not None and not n.startswith("rogue:") and n not in allowed:
                     continue
@@ -155,7 +159,7 @@ def descriptor(base, seed: int, **dev) -> dict:
 
 def from_descriptor(d: dict):
     base = (tuple(d["stages"]), d["source"], d["timeline"], d["inner_policy"])
-    dev = {k: d[k] for k in ("arm", "rec_fault", "dispose") if d.get(k) is not None}
+    dev = {k: d[k] for k in ("arm", "rec_fault", "dispose", "reenter") if d.get(k) is not None}
     return base, int(d.get("seed", 0)), dev
 
 
